@@ -136,6 +136,11 @@ impl<C: Config, Q: Query> Snapshot<C, Q> {
         // async block, because it's needed to hold `ActiveComputationGuard`
 
         let timestamp = caller_information.timestamp();
+        let backward_projections_follow = matches!(
+            caller_information.kind(),
+            CallerKind::RepairFirewall
+                | CallerKind::BackwardProjectionPropagation
+        );
         let query = query.clone();
 
         async move {
@@ -161,6 +166,17 @@ impl<C: Config, Q: Query> Snapshot<C, Q> {
                 let fingerprint = self.engine().hash(&value);
                 let updated = old_node_info.value_fingerprint() != fingerprint;
 
+                // The backward projections of an updated firewall or
+                // projection are invoked when it is reached as a transitive
+                // firewall callee of the root of a request (or by another
+                // backward projection). Reached any other way - asked for by
+                // the user or by an executor - nothing guarantees that this
+                // happens before the next input session, after which the
+                // pending mark is void and the projections above would keep
+                // their stale value behind clean edges. The dirt is sent up
+                // through them in that case as well.
+                let through_projections = !backward_projections_follow;
+
                 let mut write_buffer = self.engine().new_write_transaction();
 
                 // if fingerprint has changed, we do dirty propagation
@@ -169,6 +185,7 @@ impl<C: Config, Q: Query> Snapshot<C, Q> {
                         .engine()
                         .dirty_propagate_from_batch(
                             std::iter::once(*self.query_id()),
+                            through_projections,
                             write_buffer,
                         )
                         .await;
